@@ -573,6 +573,28 @@ func ruleInflCastFlag(p *Prog, r *Report) {
 				bad = p.Pos(in.Pos())
 			}
 		})
+		for _, ch := range p.castHelpers(castFn) {
+			loads := 0
+			eachInstr(ch.h, func(b *ssa.BasicBlock, in ssa.Instruction) {
+				if globalOfInstr(in) == g {
+					loads++
+				}
+			})
+			if loads == 0 {
+				continue
+			}
+			nLoads += loads
+			dom := false
+			for _, gd := range dominatingGuards(ch.site.Block()) {
+				ng := normGuard(gd)
+				if ng.Cond == ssa.Value(flag) && ng.Pol {
+					dom = true
+				}
+			}
+			if !dom {
+				bad = p.Pos(ch.site.Pos())
+			}
+		}
 		if bad == "" {
 			r.OK(rule, "mxj.cast", vn+" consulted only when the cast flag is on", p.Pos(castFn.Pos()), fmt.Sprintf("%d loads, all dominated by the flag-true edge", nLoads))
 		} else {
@@ -588,6 +610,53 @@ func ruleInflCastFlag(p *Prog, r *Report) {
 		mi, ok := ret.Results[0].(*ssa.MakeInterface)
 		cons := "return value at " + fmt.Sprint(b.Index)
 		if !ok {
+			// the value handed back by an unexported helper that was given the input: every non-nil value the helper returns must
+			// itself be a successful strconv.Parse* of its parameter, and the helper is called under the cast flag
+			if ex, isEx := ret.Results[0].(*ssa.Extract); isEx {
+				if hc, isC := ex.Tuple.(*ssa.Call); isC {
+					for _, ch := range p.castHelpers(castFn) {
+						if ch.site != hc {
+							continue
+						}
+						flagDom := false
+						for _, gd := range dominatingGuards(hc.Block()) {
+							ng := normGuard(gd)
+							if ng.Cond == ssa.Value(flag) && ng.Pol {
+								flagDom = true
+							}
+						}
+						good, nRet := true, 0
+						eachInstr(ch.h, func(b2 *ssa.BasicBlock, i2 ssa.Instruction) {
+							r2, isR := i2.(*ssa.Return)
+							if !isR || ex.Index >= len(r2.Results) || isNilConst(r2.Results[ex.Index]) {
+								return
+							}
+							nRet++
+							m2, isM := r2.Results[ex.Index].(*ssa.MakeInterface)
+							if !isM {
+								good = false
+								return
+							}
+							e2, isE := m2.X.(*ssa.Extract)
+							if !isE {
+								good = false
+								return
+							}
+							c2, isC2 := e2.Tuple.(*ssa.Call)
+							if !isC2 || !hasPrefixAny(p.calleeName(&c2.Call), "strconv.Parse") || c2.Call.Args[0] != ssa.Value(ch.prm) || !errCheckedBefore(errResult(c2), b2) {
+								good = false
+							}
+						})
+						k := ord2(p, ret)
+						if good && nRet > 0 && flagDom {
+							r.OK(rule, "mxj.cast", "returns a parse result of the same string"+k, p.Pos(ret.Pos()), "value of "+p.Name(ch.h)+", whose every non-nil result is a strconv result of its parameter under err == nil; called on the input on the flag-true path")
+						} else {
+							r.Bad(rule, "mxj.cast", "returns a parse result of the same string"+k, p.Pos(ret.Pos()), fmt.Sprintf("the value returned through %s is not established to be a successful strconv.Parse* of the input under the cast flag (parseOK=%v underFlag=%v)", p.Name(ch.h), good && nRet > 0, flagDom))
+						}
+						return
+					}
+				}
+			}
 			r.Bad(rule, "mxj.cast", cons, p.Pos(ret.Pos()), "returned value is not a direct conversion")
 			return
 		}
